@@ -260,7 +260,7 @@ def variantExtends (h : Heap) (sc : Cls) (root : Nat) : Except String (Option Na
 
 /-- the class object `ComplexModelBase.customize` creates (before child attributes are processed) -/
 def variantCls (sc : Cls) (src a : Nat) (ext : Option Nat) (kw : Kw) : Cls :=
-  { sc with attrs := a, orig := some (sc.orig.getD src), ext := ext,
+  { sc with attrs := a, orig := some (sc.orig.getD src), ext := ext, subs := none,
             tn := match kwTypeName kw with | some s => some s | none => sc.tn,
             ns := match kwLookup kw "namespace" with | some (.str s) => some s | _ => sc.ns }
 
@@ -292,6 +292,16 @@ def newVariant (F : Facts15) (sc : Cls) (src : Nat) (ext : Option Nat) (kw : Kw)
   aliasColWrite F sc.attrs kw
   newVariantTail (newAttrRec F h sc.attrs kw) sc src ext kw
 
+/-- `eattr._subclasses.append(self)` (ComplexModelMeta.__init__): class `n` registers with the class it extends -/
+def regSub (ext : Option Nat) (n : Nat) : M Unit :=
+  match ext with
+  | some e => updCls e (fun c => { c with subs := some (c.subs.getD [] ++ [n]) })
+  | none => pure ()
+
+/-- the same for a customised variant - only with the defective rule -/
+def regSubVariant (F : Facts15) (ext : Option Nat) (n : Nat) : M Unit :=
+  if F.subsRule == .alsoVariants then regSub ext n else pure ()
+
 mutual
 /-- `ComplexModelBase.customize` (complex.py:1223-1273) -/
 def custComplex (F : Facts15) : Nat → Nat → Kw → Option (List (String × Kw)) → Option Kw → M Nat
@@ -303,6 +313,7 @@ def custComplex (F : Facts15) : Nat → Nat → Kw → Option (List (String × K
     let h ← getHeap
     let ext ← liftExcept (variantExtends h sc (sc.orig.getD src))
     let an ← newVariant F sc src ext kw
+    regSubVariant F ext an.2
     processCaa F fuel an.2 an.1 sc.fields ext caa
     processCa F fuel an.2 an.1 ca
     pure an.2
